@@ -200,7 +200,8 @@ def run_reload(lay, seq):
     return steps
 
 
-ORDINARY = ("module", "def", "method", "if-block", "try-block", "module-eof", "method-tabs", "def-if-tabs")
+ORDINARY = ("module", "def", "method", "if-block", "try-block", "module-eof", "method-tabs", "def-if-tabs",
+            "nested-def-namesake-below", "nested-def-namesake-above", "method-namesake-below")
 
 
 def supported(meta):
@@ -260,6 +261,11 @@ class C03(Check):
         return [
             Space("two-calls", {"ops": layouts.OPS, "params": layouts.PARAMS, "styles": styles, "contexts": ctxs},
                   (lambda: layouts.enumerate_two_calls(layouts.OPS, layouts.PARAMS, styles, ctxs)), runner="run_lay"),
+            Space("two-calls:f-string pieces", {"styles": ("one",) + layouts.FSTRING_PIECE_STYLES, "contexts": ("module", "def", "method"),
+                                                 "note": "f-strings whose literal pieces are one unmatched bracket character"},
+                  (lambda: [c for c in layouts.enumerate_two_calls(layouts.OPS[:3], layouts.PARAMS, ("one",) + layouts.FSTRING_PIECE_STYLES,
+                                                                   ("module", "def", "method"))
+                            if c[1][2][3] != "one" or c[1][3][3] != "one"]), runner="run_lay"),
             Space("named-functions", {"forms": ["one-line def", "two-line def", "def with docstring", "def with comment",
                                                 "lambda bound to a name"], "calls": ["one", "two", "mixed with an inline lambda",
                                                                                     "two statements"]},
